@@ -14,7 +14,7 @@ META = dict(
                'lazy_dataset.core.PrefetchDataset.__init__/__iter__/__len__/_single_thread_prefetch', 'lazy_dataset.core.ParMapDataset.__iter__', 'lazy_dataset.core.Dataset.prefetch/map'],
     stubs=_e2.STUBS + ['E1: lazy_parallel_map/single_thread_prefetch -> serial contract that records its call arguments'],
     assumptions=_e2.ASSUMPTIONS,
-    bounds=dict(quick='E2: n<=2 source items, buffer<=2, workers<=2, K=50 (single thread) / 60 (pool) steps, all schedules and completion orders; '
+    bounds=dict(quick='E2: n<=2 source items, buffer<=2, workers<=2 (plus the thread pool at exactly n=3, buffer=2, workers=2, K=60), K=50 (single thread) / 60 (pool) steps, all schedules and completion orders; '
                       'E1: n<=3, buffer_size/num_workers unbounded symbolic ints',
                 thorough='E2: single thread n<=3 (K=75) and n<=4 (K=95), buffer<=3; pools n<=3, buffer<=2, workers<=2, K=60; thread pool n<=3, buffer<=3, workers<=3, K=64; E1 as quick'),
     outside=['n, buffer, workers above the bounds', 'internals of queue/threading/executors (contracts)', 'pickling of functions for process pools', 'backend=False'],
